@@ -539,6 +539,47 @@ func runC02(c *engine.Ctx) {
 
 	// ---- R9 pooled codec recycling (shared with C01.R8): the http2http plugin family keeps the connection after Handle returns ----
 	checkRecycle(c, "R9")
+
+	// ---- R10 the error answer always has a body ----
+	c.Rule("R10", "getNotFoundPageContent returns the built-in page on every path where the custom page could not be read")
+	if f := fn(c, "pkg/util/vhost.getNotFoundPageContent"); f != nil {
+		var track []ssa.Value
+		engine.ForEachInstr(f, func(in ssa.Instruction) {
+			if r, ok := in.(*ssa.Return); ok {
+				track = append(track, r.Results...)
+			}
+		})
+		c.AllPaths("pkg/util/vhost.getNotFoundPageContent", engine.PathCheck{Fn: f, Sink: engine.IsReturn, Track: track, Pred: func(st *engine.PathState) string {
+			r := st.Sink.(*ssa.Return)
+			v := st.Resolve(r.Results[0])
+			src := engine.Provenance(v, engine.ProvOpts{})
+			fromFile := false
+			for k := range src.Calls {
+				if k.Pkg() != nil && k.Pkg().Path() == "os" && k.Name() == "ReadFile" {
+					fromFile = true
+				}
+			}
+			if !fromFile {
+				if len(src.Consts) == 0 && len(src.Globals) == 0 {
+					return "the returned page is neither the file's content nor the built-in page"
+				}
+				return ""
+			}
+			isNil, known := st.IsNil(func(x ssa.Value) bool {
+				cl, i := engine.ResultOfCall(x)
+				if cl == nil || i != 1 {
+					return false
+				}
+				o := engine.CalleeObj(cl)
+				return o != nil && o.Name() == "ReadFile"
+			})
+			if !(known && isNil) {
+				return "the content read from the custom page file is returned on a path where reading it was not found to have succeeded: a missing file yields an empty error page"
+			}
+			return ""
+		}}, "file content only after a successful read, otherwise the built-in page")
+		c.Floor(1, 1)
+	}
 }
 
 func keysOf(m map[string]bool) []string {
